@@ -222,6 +222,40 @@ Proof.
       rewrite nth_error_app1 in Hpf |- * by (rewrite map_length; lia). exact Hpf.
 Qed.
 
+(* The restart map chosen as in lastCanonicalMapBoundaryBefore meets the guard: if the last
+   block B of map m0-1 (as stored: lastBlockOfMap) belongs to the first c blocks (it is
+   canonical in the target view and below its head) and m0-1 is not the last rendered map,
+   then all log values below m0*valuesPerMap come from the shared prefix. *)
+Lemma restart_map_guard chain lay e' ix m0 B c :
+  layout_blocks P 0 chain = (lay, e') -> chain <> [] -> ix_ptrs ix = map fst lay ->
+  0 < m0 -> last_block_of_map P ix (m0 - 1) = N.of_nat B -> (B < c)%nat -> (c <= length chain)%nat ->
+  m0 * vpm + 2 <= e' ->
+  m0 * vpm <= snd (layout_blocks P 0 (firstn c chain)).
+Proof.
+  intros Hlay Hne Hptrs Hm0 HB HBc Hc Hlast.
+  destruct (last_block_of_map_own P chain lay e' Hlay Hne ix Hptrs (m0 - 1)) as (k & Ek & q & Hq & Hle & Hnext).
+  rewrite HB in Ek. assert (k = B) by lia. subst k. replace (m0 - 1 + 1) with m0 in * by lia.
+  destruct (layout_blocks P 0 (firstn c chain)) as [la e1] eqn:Ela. cbn [snd].
+  pose proof Hlay as Hlay2. rewrite <- (firstn_skipn c chain), layout_blocks_app, Ela in Hlay2.
+  destruct (layout_blocks P e1 (skipn c chain)) as [lb e2] eqn:Elb. injection Hlay2 as <- <-.
+  destruct (layout_blocks_spec P _ _ _ _ Ela) as (Hbsa & Hrela & _).
+  destruct (layout_blocks_spec P _ _ _ _ Elb) as (Hbsb & _ & _).
+  destruct (layout_blocks_spec P _ _ _ _ Hlay) as (Hbs & _ & _).
+  assert (Hlena : length la = c).
+  { rewrite (Forall2_length' _ _ _ Hrela). apply firstn_length_le. exact Hc. }
+  destruct (bspaced_ptrs _ _ _ Hbs) as [Hsorted _].
+  destruct lb as [|[q2 ps2] lb'].
+  - pose proof (bspaced_next_ptr _ _ _ Hbsb) as E. simpl in E. lia.
+  - pose proof (bspaced_next_ptr _ _ _ Hbsb) as E. simpl in E. subst q2.
+    assert (Hc' : nth_error (ix_ptrs ix) c = Some e1).
+    { rewrite Hptrs, map_app, nth_error_app2; rewrite map_length, Hlena; [|lia].
+      rewrite Nat.sub_diag. reflexivity. }
+    destruct (nth_error (ix_ptrs ix) (S B)) as [q'|] eqn:Eq'.
+    + specialize (Hnext _ eq_refl). rewrite Hptrs in Eq', Hc'.
+      pose proof (ssorted_nth_le _ (S B) c q' e1 Hsorted Eq' Hc' ltac:(lia)). lia.
+    + apply nth_error_None in Eq'. assert (c < length (ix_ptrs ix))%nat by (apply nth_error_Some; congruence). lia.
+Qed.
+
 (* ---- tail epoch indexing ---- *)
 Lemma inv_index_tail fuel0 st st' :
   inv fuel0 st ->
